@@ -38,6 +38,7 @@ myth_thread_t myth_default_steal_func(int rank) {
   uint64_t t0, t1;
   t0 = myth_get_rdtsc();
 #endif
+  MYTH_VERIF_POINT(MVP_STEAL);
   //Choose a worker thread that seems to be busy
   env = &g_envs[rank];
   busy_env = myth_env_get_first_busy(env);
